@@ -67,6 +67,12 @@ def judge(prog, script, style, cfg, configs=CONFIGS):
     info['features'] = set(it.used_features)
     info['ref_outcome'] = out[0] if out[0] != 'error' else 'error:' + out[1]
     info['events'] = len(evs)
+    if out[0] in ('unsupported', 'budget', 'input_exhausted'):
+        # outside the reference subset: nothing is judged (compiler
+        # totality on such inputs is C06's business)
+        info['inconclusive'] = 'inconclusive:ref_' + out[0] + (
+            ':' + str(out[1])[:40] if out[0] == 'unsupported' else '')
+        return [], info
     sc = X.Script(**script)
     for cfg_ in configs:
         c = X.compile_one(text, *cfg_)
